@@ -1,5 +1,7 @@
 SPECIFICATION Spec
-CONSTANT Outputs = {"main.prg", "bank2.bin", "main.lst", "main.vs"}
+CONSTANT Cfgs <- MCCfgs
 INVARIANT NoOutputOnError
 INVARIANT ChecksBeforeWrites
+INVARIANT SuccessWritesAll
 PROPERTY Terminates
+POSTCONDITION Export
